@@ -17,3 +17,11 @@ Theorem C03_clean_exit :
   /\ (mp s = MRaised <-> order c = None).
 Proof. exact clean_exit. Qed.
 Print Assumptions C03_clean_exit.
+
+(* every schedule is finite, with an explicit bound:
+   sched_bound c := 2 * ntasks c * ntasks c + 17 * ntasks c + 5 * nworkers c + 7 *)
+Theorem C03_terminates :
+  forall c e0 st0 clk sched s, wf_cfg_or_cyclic c ->
+  run c (init c e0 st0 clk) sched = Some s -> length sched <= sched_bound c.
+Proof. exact terminates. Qed.
+Print Assumptions C03_terminates.
